@@ -58,7 +58,7 @@ class SuperAgentWrapper(Wrapper):
     @super_agent_mapping.setter
     def super_agent_mapping(self, value):
         assert type(value) is dict, "super agent mapping must be a dictionary."
-        self._covered_agents = set()
+        covered_agents = set()
         for k, v in value.items():
             assert type(k) is str, "The keys super agent mapping must be the super agent's id."
             assert k not in self.sim.agents, \
@@ -68,11 +68,12 @@ class SuperAgentWrapper(Wrapper):
                 assert type(covered_agent) is str, "The covered agents list must be agent ids."
                 assert covered_agent in self.sim.agents, \
                     "The covered agent must be an agent in the underlying sim."
-                assert covered_agent not in self._covered_agents, \
+                assert covered_agent not in covered_agents, \
                     "The agent is already covered by another super agent."
                 assert is_agent(self.sim.agents[covered_agent]), \
                     "Covered agents must be learning Agents."
-                self._covered_agents.add(covered_agent)
+                covered_agents.add(covered_agent)
+        self._covered_agents = covered_agents
         self._uncovered_agents = self.sim.agents.keys() - self._covered_agents
         self._super_agent_mapping = value
         # We need to reconstruct the agent dictionary if the super agent mapping
